@@ -133,7 +133,7 @@ fn queries(m: u64) -> Vec<Op> {
 
 fn run(tier: Tier, seed: u64, workers: usize) -> COut {
     let (m, l, n_rand, n_situ) = match tier {
-        Tier::Quick => (6u64, 3u32, 60_000usize, 6_000usize),
+        Tier::Quick => (6u64, 3u32, 300_000usize, 30_000usize),
         Tier::Thorough => (7u64, 4u32, 3_000_000usize, 300_000usize),
     };
     let segs = all_segments(m);
